@@ -1,0 +1,333 @@
+//! WriterRig: a real `Writer` fed through the real `WriterCommand` channel, with fake matched
+//! readers (distinct unicast locators).  Timed events are fired directly (the same statements
+//! `Writer::handle_timed_event` runs for them); everything the writer sends is captured by
+//! `verif::net`.
+
+use std::{
+  rc::Rc,
+  sync::{Arc, Mutex},
+};
+
+use mio_extras::channel as mio_channel;
+
+use super::{net, reader_rig::guid_from_bytes};
+use crate::{
+  dds::{
+    ddsdata::DDSData,
+    qos::policy::{Durability, History, Reliability},
+    statusevents::{
+      sync_status_channel, DataWriterStatus, DomainParticipantStatusEvent, StatusChannelReceiver,
+    },
+    with_key::datawriter::WriteOptionsBuilder,
+  },
+  messages::submessages::{
+    elements::serialized_payload::SerializedPayload,
+    submessages::{AckNack, AckSubmessage, NackFrag},
+  },
+  network::udp_sender::UDPSender,
+  rtps::{
+    rtps_reader_proxy::RtpsReaderProxy,
+    writer::{Writer, WriterCommand, WriterIngredients},
+  },
+  structure::{
+    guid::{EntityId, EntityKind, GuidPrefix, GUID},
+    locator::Locator,
+    sequence_number::{FragmentNumber, FragmentNumberSet, SequenceNumber, SequenceNumberSet},
+    time::Timestamp,
+  },
+  Duration, QosPolicies, QosPolicyBuilder, RepresentationIdentifier,
+};
+
+#[derive(Clone, Debug)]
+pub struct WriterCfg {
+  pub reliable: bool,
+  /// Some(None) = KeepAll, Some(Some(d)) = KeepLast(d), None = no History policy
+  pub history: Option<Option<i32>>,
+  /// None = no durability policy, Some(false) = Volatile, Some(true) = TransientLocal
+  pub transient_local: Option<bool>,
+  /// fragment size (data_max_size_serialized); None = library default (1024)
+  pub frag_size: Option<usize>,
+}
+
+pub fn writer_qos(cfg: &WriterCfg) -> QosPolicies {
+  let mut b = QosPolicyBuilder::new();
+  b = if cfg.reliable {
+    b.reliability(Reliability::Reliable {
+      max_blocking_time: Duration::from_millis(100),
+    })
+  } else {
+    b.reliability(Reliability::BestEffort)
+  };
+  b = match cfg.history {
+    None => b,
+    Some(None) => b.history(History::KeepAll),
+    Some(Some(d)) => b.history(History::KeepLast { depth: d }),
+  };
+  b = match cfg.transient_local {
+    None => b,
+    Some(false) => b.durability(Durability::Volatile),
+    Some(true) => b.durability(Durability::TransientLocal),
+  };
+  b.build()
+}
+
+pub fn reader_qos(reliable: bool) -> QosPolicies {
+  let b = QosPolicyBuilder::new();
+  if reliable {
+    b.reliability(Reliability::Reliable {
+      max_blocking_time: Duration::from_millis(100),
+    })
+    .build()
+  } else {
+    b.reliability(Reliability::BestEffort).build()
+  }
+}
+
+#[derive(Clone, Debug, Default)]
+pub struct ProxyView {
+  pub present: bool,
+  pub all_acked_before: i64,
+  pub unsent: Vec<i64>,
+  pub pending_gap: Vec<i64>,
+  pub repair_mode: bool,
+  pub frags_requested: bool,
+}
+
+pub struct WriterRig {
+  pub(crate) writer: Writer,
+  cmd_sender: mio_channel::SyncSender<WriterCommand>,
+  pub(crate) status_receiver: StatusChannelReceiver<DataWriterStatus>,
+  pub(crate) participant_status_receiver: StatusChannelReceiver<DomainParticipantStatusEvent>,
+  pub(crate) waker_slot: Arc<Mutex<Option<std::task::Waker>>>,
+  next_sn: i64,
+  wait_receiver: Option<StatusChannelReceiver<()>>,
+  wait_completed: bool,
+  pub guid: [u8; 16],
+}
+
+impl WriterRig {
+  pub fn new(cfg: &WriterCfg, guid: [u8; 16]) -> Self {
+    net::capture_begin();
+    let (cmd_sender, cmd_receiver) = mio_channel::sync_channel::<WriterCommand>(16);
+    let (status_sender, status_receiver) = sync_status_channel::<DataWriterStatus>(4096).unwrap();
+    let (participant_status_sender, participant_status_receiver) =
+      sync_status_channel::<DomainParticipantStatusEvent>(4096).unwrap();
+    let waker_slot = Arc::new(Mutex::new(None));
+    let ing = WriterIngredients {
+      guid: guid_from_bytes(guid),
+      writer_command_receiver: cmd_receiver,
+      writer_command_receiver_waker: waker_slot.clone(),
+      topic_name: super::TOPIC_NAME.to_string(),
+      like_stateless: false,
+      qos_policies: writer_qos(cfg),
+      status_sender,
+      security_plugins: None,
+    };
+    let mut writer = Writer::new(
+      ing,
+      Rc::new(UDPSender::new(0).unwrap()),
+      mio_extras::timer::Builder::default().build(),
+      participant_status_sender,
+    );
+    if let Some(fs) = cfg.frag_size {
+      writer.data_max_size_serialized = fs;
+    }
+    Self {
+      writer,
+      cmd_sender,
+      status_receiver,
+      participant_status_receiver,
+      waker_slot,
+      next_sn: 1,
+      wait_receiver: None,
+      wait_completed: false,
+      guid,
+    }
+  }
+
+  fn begin(&self) {
+    net::capture_begin();
+    net::capture_take();
+  }
+
+  /// discovery announces a reader: `Writer::update_reader_proxy`
+  pub fn match_reader(&mut self, reader: [u8; 16], reliable: bool, port: u16) {
+    let guid = guid_from_bytes(reader);
+    let mut proxy = RtpsReaderProxy::new(guid, reader_qos(reliable), false);
+    proxy.unicast_locator_list = vec![Locator::from(std::net::SocketAddr::from((
+      [127, 0, 0, 1],
+      port,
+    )))];
+    self.writer.update_reader_proxy(&proxy, &reader_qos(reliable));
+  }
+
+  pub fn lose_reader(&mut self, reader: [u8; 16]) {
+    self.writer.reader_lost(guid_from_bytes(reader));
+  }
+
+  /// DataWriter -> Writer: WriterCommand::DDSData through the real channel, then
+  /// `process_writer_command`.  `payload` = serialized payload without encapsulation header.
+  pub fn write(
+    &mut self,
+    payload: Vec<u8>,
+    single_reader: Option<[u8; 16]>,
+    src_ts_secs: Option<u32>,
+  ) -> (i64, Vec<net::Sent>) {
+    self.begin();
+    let sn = self.next_sn;
+    self.next_sn += 1;
+    let mut wo = WriteOptionsBuilder::new();
+    if let Some(s) = src_ts_secs {
+      wo = wo.source_timestamp(Timestamp::from_ticks((s as u64) << 32));
+    }
+    if let Some(r) = single_reader {
+      wo = wo.to_single_reader(guid_from_bytes(r));
+    }
+    let ddsdata = DDSData::new(SerializedPayload::new_from_bytes(RepresentationIdentifier::CDR_LE, bytes::Bytes::from(payload)));
+    self
+      .cmd_sender
+      .try_send(WriterCommand::DDSData {
+        ddsdata,
+        write_options: wo.build(),
+        sequence_number: SequenceNumber::new(sn),
+      })
+      .unwrap_or_else(|_| panic!("verif: command channel"));
+    self.writer.process_writer_command();
+    (sn, net::capture_take())
+  }
+
+  pub fn acknack(
+    &mut self,
+    reader: [u8; 16],
+    base: i64,
+    set: &[i64],
+    count: i32,
+  ) -> Vec<net::Sent> {
+    self.begin();
+    let g = guid_from_bytes(reader);
+    let set: std::collections::BTreeSet<SequenceNumber> =
+      set.iter().map(|s| SequenceNumber::new(*s)).collect();
+    let an = AckNack {
+      reader_id: g.entity_id,
+      writer_id: guid_from_bytes(self.guid).entity_id,
+      reader_sn_state: if set.is_empty() {
+        SequenceNumberSet::new_empty(SequenceNumber::new(base))
+      } else {
+        SequenceNumberSet::from_base_and_set(SequenceNumber::new(base), &set)
+      },
+      count,
+    };
+    self
+      .writer
+      .handle_ack_nack(g.prefix, &AckSubmessage::AckNack(an));
+    net::capture_take()
+  }
+
+  pub fn nackfrag(&mut self, reader: [u8; 16], sn: i64, frags: &[u32], count: i32) -> Vec<net::Sent> {
+    self.begin();
+    let g = guid_from_bytes(reader);
+    let set: std::collections::BTreeSet<FragmentNumber> =
+      frags.iter().map(|f| FragmentNumber::new(*f)).collect();
+    let base = set.iter().next().copied().unwrap_or(FragmentNumber::new(1));
+    let nf = NackFrag {
+      reader_id: g.entity_id,
+      writer_id: guid_from_bytes(self.guid).entity_id,
+      writer_sn: SequenceNumber::new(sn),
+      fragment_number_state: FragmentNumberSet::from_base_and_set(base, &set),
+      count,
+    };
+    self
+      .writer
+      .handle_ack_nack(g.prefix, &AckSubmessage::NackFrag(nf));
+    net::capture_take()
+  }
+
+  pub fn heartbeat_tick(&mut self) -> Vec<net::Sent> {
+    self.begin();
+    self.writer.handle_heartbeat_tick(false);
+    net::capture_take()
+  }
+
+  /// TimedEvent::SendRepairData{to_reader}
+  pub fn fire_repair_data(&mut self, reader: [u8; 16]) -> Vec<net::Sent> {
+    self.begin();
+    self.writer.verif_fire_repair_data(guid_from_bytes(reader));
+    net::capture_take()
+  }
+
+  /// TimedEvent::SendRepairFrags{to_reader}
+  pub fn fire_repair_frags(&mut self, reader: [u8; 16]) -> Vec<net::Sent> {
+    self.begin();
+    self.writer.verif_fire_repair_frags(guid_from_bytes(reader));
+    net::capture_take()
+  }
+
+  /// TimedEvent::CacheCleaning
+  pub fn cache_clean(&mut self) {
+    self.writer.verif_fire_cache_cleaning();
+  }
+
+  /// WriterCommand::WaitForAcknowledgments through the real channel
+  pub fn wait_for_acks(&mut self) {
+    let (s, r) = sync_status_channel::<()>(1).unwrap();
+    self.wait_receiver = Some(r);
+    self.wait_completed = false;
+    self
+      .cmd_sender
+      .try_send(WriterCommand::WaitForAcknowledgments { all_acked: s })
+      .unwrap_or_else(|_| panic!("verif: command channel"));
+    self.writer.process_writer_command();
+  }
+
+  /// has the completion signal of the current wait arrived?
+  pub fn wait_completed(&mut self) -> bool {
+    if let Some(r) = &self.wait_receiver {
+      if r.try_recv().is_ok() {
+        self.wait_completed = true;
+      }
+    }
+    self.wait_completed
+  }
+
+  pub fn history_sns(&self) -> Vec<i64> {
+    self.writer.verif_history_sns()
+  }
+
+  pub fn first_last(&self) -> (i64, i64) {
+    self.writer.verif_first_last()
+  }
+
+  pub fn proxy(&self, reader: [u8; 16]) -> ProxyView {
+    self.writer.verif_proxy(guid_from_bytes(reader))
+  }
+
+  pub fn matched_readers(&self) -> Vec<[u8; 16]> {
+    self.writer.verif_matched_readers()
+  }
+
+  /// DataWriterStatus events since the last call, rendered as (kind, current, total, change)
+  pub fn drain_status(&mut self) -> Vec<(String, i32, i32, i32)> {
+    let mut out = vec![];
+    while let Ok(s) = self.status_receiver.try_recv() {
+      match s {
+        DataWriterStatus::PublicationMatched { total, current, .. } => out.push((
+          "PublicationMatched".to_string(),
+          current.count(),
+          total.count(),
+          current.count_change(),
+        )),
+        DataWriterStatus::OfferedIncompatibleQos { count, .. } => out.push((
+          "OfferedIncompatibleQos".to_string(),
+          count.count(),
+          count.count(),
+          count.count_change(),
+        )),
+        other => out.push((format!("{other:?}"), 0, 0, 0)),
+      }
+    }
+    out
+  }
+}
+
+#[allow(dead_code)]
+fn _unused(_: EntityId, _: EntityKind, _: GuidPrefix, _: GUID) {}
